@@ -39,6 +39,8 @@ inductive Num
   | int (i : Int)
   | dbl (bits : Nat)
   | big (i : Int)
+  /-- `undefined` (what a callback returns when the generator supplied no value): ToNumber ↦ NaN, ToBigInt ↦ TypeError -/
+  | undef
   deriving DecidableEq, Repr, Inhabited
 
 def f64Sign (b : Nat) : Bool := b / 2 ^ 63 % 2 == 1
@@ -160,8 +162,12 @@ def encodeNat (k : Kind) (num : Num) : Option Nat :=
   | .f64, .dbl b => some (if f64IsNaN b then nanBits else b)
   | .f32, .int i => some (f64ToF32 (intToF64 i))
   | .f32, .dbl b => some (f64ToF32 (if f64IsNaN b then nanBits else b))
+  | .u8c, .undef => some 0
+  | .f64, .undef => some nanBits
+  | .f32, .undef => some (f64ToF32 nanBits)
   | k, .int i => some (intModN (8 * k.size) i)
   | k, .dbl b => some (f64ToUintN (8 * k.size) b)
+  | _, .undef => some 0
 
 def encode (k : Kind) (num : Num) : Option (List UInt8) :=
   (encodeNat k num).map (leBytes k.size)
@@ -304,6 +310,14 @@ inductive Res
   | view (byteOffset length : Nat)
   deriving Repr
 
+def Res.isOk : Res → Bool
+  | .ok => true
+  | _ => false
+
+/-- how a returned typed array reports itself: the `byteOffset` / `length` getters answer 0 once its buffer is detached
+(builtin_typedarrays.go:437-455) -/
+def viewRes (attached : Bool) (lo len : Nat) : Res := if attached then .view lo len else .view 0 0
+
 /-- `relToIdx` (builtin_array.go:61). -/
 def relToIdx (rel l : Int) : Int :=
   if rel ≥ 0 then min rel l else max (l + rel) 0
@@ -373,7 +387,7 @@ def dvByteLen (len : Option IArg) (n byteOffset : Int) : Int :=
   | none => n - byteOffset
 
 /-- `newDataView` (builtin_typedarrays.go:156). -/
-def opNewDV (s : State) (b : Nat) (off len : Option IArg) : Res × State :=
+def opNewDV (s : State) (b : Nat) (off len : Option IArg) (pdet : List Nat := []) : Res × State :=
   if b ≥ s.bufs.length then (.bad, s) else
   -- 174-181: if len(args) > 1 { byteOffset = toIndex; ensureNotDetached; byteOffset > len(data) }
   let s := s.applyDet (oDet off)
@@ -388,6 +402,8 @@ def opNewDV (s : State) (b : Nat) (off len : Option IArg) : Res × State :=
   if !dvLenOk len then (.err .range, s) else
   let byteLen : Int := dvByteLen len (s.blen b) byteOffset
   if len.isSome && byteOffset + byteLen > (s.blen b : Int) then (.err .range, s) else
+  -- 190: getPrototypeFromCtor(newTarget, …) reads newTarget.prototype (callback point)
+  let s := s.applyDet pdet
   -- 191-197: final checks
   if !s.attached b then (.err .type, s) else
   if byteOffset > (s.blen b : Int) then (.err .range, s) else
@@ -632,11 +648,11 @@ def opSlice (s : State) (vi : Nat) (start fin : Option IArg) (sp : Species) : Re
           if count > 0 then
             if !s.attached v.buf then (.err .type, s) else
             let s2 := copyFwd s v.buf ((v.offset + st.toNat) * es) dst.buf (dst.offset * es) (count * es)
-            (.view dst.lo dst.length, { s2 with views := s2.views ++ [dst] })
-          else (.view dst.lo dst.length, { s with views := s.views ++ [dst] })
+            (viewRes (s2.attached dst.buf) dst.lo dst.length, { s2 with views := s2.views ++ [dst] })
+          else (viewRes (s.attached dst.buf) dst.lo dst.length, { s with views := s.views ++ [dst] })
         else
           match sliceConvLoop s v dst st.toNat 0 count with
-          | (.ok, s2) => (.view dst.lo dst.length, { s2 with views := s2.views ++ [dst] })
+          | (.ok, s2) => (viewRes (s2.attached dst.buf) dst.lo dst.length, { s2 with views := s2.views ++ [dst] })
           | r => r
 
 /-- `typedArrayProto_subarray` (builtin_typedarrays.go:1171). No detach check of its own; the default
@@ -661,7 +677,7 @@ def opSubarray (s : State) (vi : Nat) (start fin : Option IArg) (sp : Species) :
       | some dst =>
         let s := s.applyDet det
         if !s.attached dst.buf then (.err .type, s) else
-        (.view dst.lo dst.length, { s with views := s.views ++ [dst] })
+        (viewRes (s.attached dst.buf) dst.lo dst.length, { s with views := s.views ++ [dst] })
 
 /-! ## sort / reverse -/
 
@@ -758,6 +774,203 @@ def opDVSet (s : State) (di : Nat) (k : Kind) (idx : IArg) (a : VArg) (le : Bool
       let bs := fit k.size raw
       (.ok, s.writeRange d.buf (idx.val.toNat + d.byteOffset) (if le then bs else bs.reverse))
 
+/-! ## operations that return a freshly allocated typed array -/
+
+def zeros (n : Nat) : List UInt8 := List.replicate n 0
+
+/-- bytes of a fresh typed array whose elements are `elems` (each exactly `es` bytes) -/
+def freshBytes (es : Nat) : List (List UInt8) → List UInt8
+  | [] => []
+  | x :: xs => fit es x ++ freshBytes es xs
+
+/-- a typed array allocated by the default constructor (allocateTypedArray, builtin_typedarrays.go:1376) becomes
+part of the state when the call returns it; until then no user code can reach it. -/
+def pushFresh (s : State) (kind : Kind) (elems : List (List UInt8)) : State :=
+  { s with bufs := s.bufs ++ [some (freshBytes kind.size elems)],
+           views := s.views ++ [⟨s.bufs.length, 0, elems.length, kind⟩] }
+
+/-- `typedArrayProto_toReversed` (builtin_typedarrays.go:1261). -/
+def opToReversed (s : State) (vi : Nat) : Res × State :=
+  match s.views[vi]? with
+  | none => (.bad, s)
+  | some v =>
+    if !s.attached v.buf then (.err .type, s) else
+    let r := readElems s v 0 v.length
+    -- 1272-1276: element-wise get → set through a Value (a NaN is re-encoded as goja's NaN)
+    (.view 0 v.length, pushFresh r.2 v.kind (r.1.reverse.map (fun x => (encode v.kind (decode v.kind x)).getD x)))
+
+/-- `typedArrayProto_toSorted` (builtin_typedarrays.go:1281): the copy is sorted, so a comparator that detaches
+the receiver's buffer does not change the result. -/
+def opToSorted (s : State) (vi : Nat) (cmp : Cmp) : Res × State :=
+  match s.views[vi]? with
+  | none => (.bad, s)
+  | some v =>
+    if !s.attached v.buf then (.err .type, s) else
+    let r := readElems s v 0 v.length
+    match cmp with
+    | none =>
+      (.view 0 v.length, pushFresh r.2 v.kind (stableSort (fun a b => numLess (decode v.kind a) (decode v.kind b)) r.1))
+    | some det =>
+      let s2 := if v.length < 2 then r.2 else r.2.applyDet det
+      (.view 0 v.length, pushFresh s2 v.kind (stableSort (fun a b => numLess (decode v.kind b) (decode v.kind a)) r.1))
+
+/-- builtin_typedarrays.go:1237-1241: `actualIndex` of `with` -/
+def withIndex (rel len : Int) : Int := if rel ≥ 0 then rel else len + rel
+
+/-- `typedArrayProto_with` (builtin_typedarrays.go:1226). -/
+def opWith (s : State) (vi : Nat) (idx : IArg) (a : VArg) : Res × State :=
+  match s.views[vi]? with
+  | none => (.bad, s)
+  | some v =>
+    if !s.attached v.buf then (.err .type, s) else
+    -- 1234-1241
+    let s := s.applyDet idx.det
+    let actual : Int := withIndex idx.val v.length
+    -- 1243-1249
+    let s := s.applyDet a.det
+    match encode v.kind a.num with
+    | none => (.err .type, s)
+    | some raw =>
+      -- 1251
+      if !isValidIntegerIndex (s.attached v.buf) v.length actual then (.err .range, s) else
+      let r := readElems s v 0 v.length
+      (.view 0 v.length, pushFresh r.2 v.kind (r.1.set actual.toNat raw))
+
+/-- builtin_typedarrays.go:554-563: raw bytes of element `k`, or zeros once the buffer is detached -/
+def filterRead (s : State) (v : View) (k : Nat) : List UInt8 × State :=
+  if s.attached v.buf then s.readElem v k else (zeros v.kind.size, s)
+
+/-- `typedArrayProto_filter` loop (builtin_typedarrays.go:553-569): the element is captured before the callback
+runs; once the buffer is detached the remaining elements are `undefined` / zero bytes. `detAt` = the call during
+which the adversary detaches. -/
+def filterLoop (s : State) (v : View) (keep : List Bool) (detAt : Nat) (det : List Nat) (k : Nat) :
+    Nat → List (List UInt8) → State × List (List UInt8)
+  | 0, acc => (s, acc)
+  | n + 1, acc =>
+    let r := filterRead s v k
+    let s := if k == detAt then r.2.applyDet det else r.2
+    filterLoop s v keep detAt det (k + 1) n (if keep.getD k false then acc ++ [r.1] else acc)
+
+/-- `typedArrayProto_filter` (builtin_typedarrays.go:541), default species. -/
+def opFilter (s : State) (vi : Nat) (keep : List Bool) (detAt : Nat) (det : List Nat) : Res × State :=
+  match s.views[vi]? with
+  | none => (.bad, s)
+  | some v =>
+    if !s.attached v.buf then (.err .type, s) else
+    let r := filterLoop s v keep detAt det 0 v.length []
+    (.view 0 r.2.length, pushFresh r.1 v.kind r.2)
+
+/-- what the callback of `map` / the element list of `of` / `from` yields at position `k` -/
+def valAt (vals : List VArg) (k : Nat) : VArg := vals.getD k ⟨.undef, []⟩
+
+/-- builtin_typedarrays.go:904: the source element of `map` is read only while it is a valid index -/
+def mapRead (s : State) (v : View) (k : Nat) : State :=
+  if s.attached v.buf then (s.readElem v k).2 else s
+
+/-- ECMA-262 TypedArraySetElement after the conversion: write iff IsValidIntegerIndex -/
+def putValid (s : State) (dst : View) (k : Nat) (raw : List UInt8) : State :=
+  if isValidIntegerIndex (s.attached dst.buf) dst.length (k : Int) then s.writeElem dst k raw else s
+
+/-- `map` with the default constructor: ECMA-262 %TypedArray%.prototype.map steps 7-8 (Get, Call, Set) where the
+target is private: each callback result is converted (callback point) and stored. -/
+def mapLoopFresh (s : State) (v : View) (vals : List VArg) (k : Nat) :
+    Nat → List (List UInt8) → Res × State × List (List UInt8)
+  | 0, acc => (.ok, s, acc)
+  | n + 1, acc =>
+    -- 904: the source element is read only while it is a valid index
+    let s := mapRead s v k
+    let s := s.applyDet (valAt vals k).det
+    match encode v.kind (valAt vals k).num with
+    | none => (.err .type, s, acc)
+    | some raw => mapLoopFresh s v vals (k + 1) n (acc ++ [raw])
+
+/-- `map` into a typed array returned by a user species constructor: ECMA-262 TypedArraySetElement — convert
+(callback point), then IsValidIntegerIndex on the TARGET, then write. -/
+def mapLoopDst (s : State) (v dst : View) (vals : List VArg) (k : Nat) : Nat → Res × State
+  | 0 => (.ok, s)
+  | n + 1 =>
+    let s := mapRead s v k
+    let s := s.applyDet (valAt vals k).det
+    match encode dst.kind (valAt vals k).num with
+    | none => (.err .type, s)
+    | some raw => mapLoopDst (putValid s dst k raw) v dst vals (k + 1) n
+
+/-- `typedArrayProto_map` (builtin_typedarrays.go:894). -/
+def opMap (s : State) (vi : Nat) (sp : Species) (vals : List VArg) : Res × State :=
+  match s.views[vi]? with
+  | none => (.bad, s)
+  | some v =>
+    if speciesBad s sp then (.bad, s) else
+    -- 896
+    if !s.attached v.buf then (.err .type, s) else
+    match sp with
+    | none =>
+      let r := mapLoopFresh s v vals 0 v.length []
+      if r.1.isOk then (.view 0 v.length, pushFresh r.2.1 v.kind r.2.2) else (r.1, r.2.1)
+    | some (di, det) =>
+      match s.views[di]? with
+      | none => (.bad, s)
+      | some dst =>
+        -- 902: typedArraySpeciesCreate(ta, [length]) → typedArrayCreate validation (1389-1403)
+        let s := s.applyDet det
+        if !s.attached dst.buf then (.err .type, s) else
+        if dst.length < v.length then (.err .type, s) else
+        match mapLoopDst s v dst vals 0 v.length with
+        | (.ok, s2) => (viewRes (s2.attached dst.buf) dst.lo dst.length, { s2 with views := s2.views ++ [dst] })
+        | r => r
+
+/-- convert a list of values in order (callback point each); `none` result = TypeError -/
+def convVals (s : State) (kind : Kind) : List VArg → List (List UInt8) → Res × State × List (List UInt8)
+  | [], acc => (.ok, s, acc)
+  | a :: as, acc =>
+    let s := s.applyDet a.det
+    match encode kind a.num with
+    | none => (.err .type, s, acc)
+    | some raw => convVals s kind as (acc ++ [raw])
+
+/-- the constructor `%TypedArray%.of` / `.from` is applied to: a built-in typed array constructor, or a user
+function that detaches and returns an existing typed array. -/
+inductive Ctor
+  | builtin (k : Kind)
+  | user (vid : Nat) (det : List Nat)
+
+/-- `typedArray_of` / `typedArray_from` (builtin_typedarrays.go:1319, 1368): TypedArrayCreate(C, len), then
+Set(newObj, k, value) for every value — TypedArraySetElement: convert, validate the index, write at VIEW index k. -/
+def opOf (s : State) (c : Ctor) (vals : List VArg) : Res × State :=
+  match c with
+  | .builtin kind =>
+    let r := convVals s kind vals []
+    if r.1.isOk then (.view 0 vals.length, pushFresh r.2.1 kind r.2.2) else (r.1, r.2.1)
+  | .user di det =>
+    match s.views[di]? with
+    | none => (.bad, s)
+    | some dst =>
+      let s := s.applyDet det
+      -- typedArrayCreate (1389-1403)
+      if !s.attached dst.buf then (.err .type, s) else
+      if dst.length < vals.length then (.err .type, s) else
+      match setArrLoop s dst 0 vals with
+      | (.ok, s2) => (viewRes (s2.attached dst.buf) dst.lo dst.length, { s2 with views := s2.views ++ [dst] })
+      | r => r
+
+/-- `arrayBufferProto_slice` (builtin_typedarrays.go:111), default species.  Follows goja in two places where
+ECMA-262 throws a TypeError without touching memory: an already detached receiver behaves as an empty buffer, and
+a receiver detached by an argument coercion is only rejected when `newLen > 0`. -/
+def opABSlice (s : State) (b : Nat) (start fin : Option IArg) : Res × State :=
+  if b ≥ s.bufs.length then (.bad, s) else
+  let l : Int := s.blen b
+  let s := s.applyDet (oDet start)
+  let st := relToIdx (oVal start 0) l
+  let s := s.applyDet (oDet fin)
+  let en := relToIdx (oVal fin l) l
+  let newLen := (en - st).toNat
+  if newLen > 0 then
+    -- 127
+    if !s.attached b then (.err .type, s) else
+    let r := s.readRange b st.toNat newLen
+    (.view 0 newLen, { r.2 with bufs := r.2.bufs ++ [some r.1] })
+  else (.view 0 0, { s with bufs := s.bufs ++ [some []] })
+
 /-- any prototype method that does not write to its receiver (indexOf, join, map, every, …; run on the
 implementation side only): the adversary's callback / coercion runs iff the receiver passes the method's entry
 check (`needAttached`) and is long enough for the callback to be invoked (`minLen`). -/
@@ -772,8 +985,9 @@ def opOther (s : State) (vi : Nat) (needAttached : Bool) (minLen : Nat) (det : L
 inductive Op
   | newBuf (bytes : List UInt8)
   | detach (b : Nat)
-  | newView (k : Kind) (b : Nat) (off len : Option IArg)
-  | newDV (b : Nat) (off len : Option IArg)
+  /-- `pdet`: buffers detached by the `prototype` getter of newTarget (getPrototypeFromCtor) -/
+  | newView (k : Kind) (b : Nat) (off len : Option IArg) (pdet : List Nat)
+  | newDV (b : Nat) (off len : Option IArg) (pdet : List Nat)
   | get (v : Nat) (idx : Int)
   | put (v : Nat) (idx : Int) (a : VArg)
   | fill (v : Nat) (a : VArg) (start fin : Option IArg)
@@ -786,6 +1000,13 @@ inductive Op
   | reverse (v : Nat)
   | dvGet (d : Nat) (k : Kind) (idx : IArg) (le : Bool)
   | dvSet (d : Nat) (k : Kind) (idx : IArg) (a : VArg) (le : Bool)
+  | toReversed (v : Nat)
+  | toSorted (v : Nat) (cmp : Cmp)
+  | with_ (v : Nat) (idx : IArg) (a : VArg)
+  | filter (v : Nat) (keep : List Bool) (detAt : Nat) (det : List Nat)
+  | map (v : Nat) (sp : Species) (vals : List VArg)
+  | of_ (c : Ctor) (vals : List VArg)
+  | abSlice (b : Nat) (start fin : Option IArg)
   /-- any read-only prototype method run only on the implementation side (indexOf, join, map, …): the model
   records just the adversary's detaches -/
   | other (v : Nat) (needAttached : Bool) (minLen : Nat) (det : List Nat)
@@ -793,8 +1014,9 @@ inductive Op
 def step (s : State) : Op → Res × State
   | .newBuf bytes => (.ok, { s with bufs := s.bufs ++ [some bytes] })
   | .detach b => (.ok, s.detach b)
-  | .newView k b off len => opNewView s k b off len
-  | .newDV b off len => opNewDV s b off len
+  -- builtin_typedarrays.go:1455: getPrototypeFromCtor runs before any argument is looked at
+  | .newView k b off len pdet => opNewView (s.applyDet pdet) k b off len
+  | .newDV b off len pdet => opNewDV s b off len pdet
   | .get v idx => opGet s v idx
   | .put v idx a => opPut s v idx a
   | .fill v a st fi => opFill s v a st fi
@@ -807,6 +1029,13 @@ def step (s : State) : Op → Res × State
   | .reverse v => opReverse s v
   | .dvGet d k i le => opDVGet s d k i le
   | .dvSet d k i a le => opDVSet s d k i a le
+  | .toReversed v => opToReversed s v
+  | .toSorted v c => opToSorted s v c
+  | .with_ v i a => opWith s v i a
+  | .filter v keep detAt det => opFilter s v keep detAt det
+  | .map v sp vals => opMap s v sp vals
+  | .of_ c vals => opOf s c vals
+  | .abSlice b st fi => opABSlice s b st fi
   | .other v needAttached minLen det => opOther s v needAttached minLen det
 
 def run (s : State) : List Op → State
